@@ -40,10 +40,11 @@ def P(optset, mode="own", full=1, stride=0, extras=0, kind="pool", nblocks=0):
 
 
 PLANS = {
-    "quick": [P("greedy", full=1, stride=13), P("storage", full=0, stride=5), P("partition", full=0, stride=5),
+    "quick": [P("greedy", full=1, stride=13), P("greedy", "same", full=1, stride=0), P("storage", full=0, stride=5), P("partition", full=0, stride=5),
               P("norules", full=0, stride=5), P("greedy", "contract", full=0, stride=5), P("encoding", full=0, stride=5),
               P("greedy", "contract", kind="prefix", nblocks=16)],
-    "thorough": [P("greedy", full=2, stride=13, extras=12), P("storage", full=1, stride=5), P("partition", full=1, stride=5),
+    "thorough": [P("greedy", full=2, stride=13, extras=12), P("greedy", "same", full=1, stride=13), P("storage", "same", full=1, stride=0),
+                 P("storage", full=1, stride=5), P("partition", full=1, stride=5),
                  P("norules", full=1, stride=13), P("size", full=0, stride=5), P("greedy", "contract", full=1, stride=13),
                  P("storage", "contract", full=0, stride=5), P("encoding", full=1, stride=13),
                  P("greedy", "contract", kind="prefix", nblocks=100), P("storage", "contract", kind="prefix", nblocks=40),
